@@ -5,7 +5,8 @@
 //!
 //! case: (mt CAP SENDERS PER MODE SEED)
 //!   SENDERS threads share one `Sender` and emit PER items each (id = thread * 1_000_000 + seq) with `send`
-//!   (MODE = send), `try_send` (MODE = try) or a mix (MODE = mix); a real receiver thread (`sync::spawn`) records
+//!   (MODE = send), `try_send` (MODE = try), a mix (MODE = mix), or trickled one at a time into a receiver that polls
+//!   flat out (MODE = spin: `Receiver::exec` with waits that complete at once); a real receiver thread (`sync::spawn`) records
 //!   every batch, sometimes failing it (no retry) or panicking (SEED decides). Then the sender is dropped and the
 //!   receiver joined.
 //! oracle (I/O only):
@@ -62,7 +63,7 @@ fn run_mt(line: &str) -> String {
         let per = a[2].as_usize()?;
         let mode = a[3].as_atom()?.to_string();
         let seed = a[4].as_u64()?;
-        if cap == 0 || senders == 0 || senders > 16 || per > 100_000 || !["send", "try", "mix"].contains(&mode.as_str()) {
+        if cap == 0 || senders == 0 || senders > 16 || per > 100_000 || !["send", "try", "mix", "spin"].contains(&mode.as_str()) {
             return None;
         }
         Some((cap, senders, per, mode, seed))
@@ -73,7 +74,28 @@ fn run_mt(line: &str) -> String {
     let (sender, receiver): (Sender<Vec<u64>>, Receiver<Vec<u64>>) = emit_batcher::bounded(cap);
     let metrics = sender.metric_source();
     let batches: Arc<Mutex<Vec<Vec<u64>>>> = Arc::new(Mutex::new(Vec::new()));
-    let handle = {
+    let spin = mode == "spin";
+    let delivered_n = Arc::new(std::sync::atomic::AtomicUsize::new(0));
+    let handle = if spin {
+        // MODE = spin: the receiver runs `Receiver::exec` with waits that complete at once, so it polls the empty
+        // channel flat out (idle back-off at its cap within a few iterations) while the senders trickle items in:
+        // each send lands at an arbitrary point of the receiver's idle path (swap-out, bookkeeping, re-allocation)
+        let batches = batches.clone();
+        let delivered_n = delivered_n.clone();
+        std::thread::Builder::new()
+            .name("hbatcher_mt_spin".into())
+            .spawn(move || {
+                tokio::runtime::Builder::new_current_thread().build().unwrap().block_on(receiver.exec(
+                    |_| std::future::ready(()),
+                    move |batch: Vec<u64>| {
+                        delivered_n.fetch_add(batch.len(), std::sync::atomic::Ordering::SeqCst);
+                        batches.lock().unwrap().push(batch);
+                        std::future::ready(Ok(()))
+                    },
+                ))
+            })
+            .unwrap()
+    } else {
         let batches = batches.clone();
         let mut rng = Rng::new(seed);
         emit_batcher::sync::spawn("hbatcher_mt_rx", receiver, move |batch: Vec<u64>| {
@@ -93,6 +115,7 @@ fn run_mt(line: &str) -> String {
     let sender = Arc::new(sender);
     let accepted: Arc<Mutex<BTreeSet<u64>>> = Arc::new(Mutex::new(BTreeSet::new()));
     let max_q = Arc::new(Mutex::new(0usize));
+    let sent_total = Arc::new(std::sync::atomic::AtomicUsize::new(0));
     let mut threads = Vec::new();
     for t in 0..senders {
         let sender = sender.clone();
@@ -100,6 +123,8 @@ fn run_mt(line: &str) -> String {
         let mode = mode.clone();
         let metrics = sender.metric_source();
         let max_q = max_q.clone();
+        let delivered_n = delivered_n.clone();
+        let sent_total = sent_total.clone();
         // pacing (from the seed): how often a sender yields, so that cases range from "senders overwhelm the
         // receiver" (mostly truncation) to "receiver keeps up" (mostly delivery)
         let pace = [1usize, 3, 16, 128, usize::MAX][(seed % 5) as usize];
@@ -108,6 +133,19 @@ fn run_mt(line: &str) -> String {
             let mut seen_q = 0usize;
             for i in 0..per {
                 let id = (t as u64) * 1_000_000 + i as u64;
+                if spin {
+                    // trickle: wait (briefly) until everything sent so far was delivered, then send the next
+                    let t0 = std::time::Instant::now();
+                    while delivered_n.load(std::sync::atomic::Ordering::SeqCst) < sent_total.load(std::sync::atomic::Ordering::SeqCst)
+                        && t0.elapsed() < std::time::Duration::from_millis(2)
+                    {
+                        std::hint::spin_loop();
+                    }
+                    sender.send(id);
+                    sent_total.fetch_add(1, std::sync::atomic::Ordering::SeqCst);
+                    mine.push(id);
+                    continue;
+                }
                 let use_try = match mode.as_str() {
                     "send" => false,
                     "try" => true,
@@ -201,7 +239,15 @@ fn run_mt(line: &str) -> String {
 fn gen_mt(rng: &mut Rng, tier: Tier, n: usize) -> Vec<String> {
     if tier == Tier::Quick {
         // a handful, so that the stream is exercised when run by hand in the quick tier
-        return (0..n.min(8)).map(|i| format!("(mt {} 2 200 mix {})", 1 + i % 4, rng.below(1000))).collect();
+        return (0..n.min(8))
+            .map(|i| {
+                if i % 2 == 1 {
+                    format!("(mt {} {} 3000 spin {})", [64, 1024][i / 2 % 2], 1 + i / 4 % 2, rng.below(1000))
+                } else {
+                    format!("(mt {} 2 200 mix {})", 1 + i % 4, rng.below(1000))
+                }
+            })
+            .collect();
     }
     (0..n)
         .map(|_| {
@@ -213,7 +259,7 @@ fn gen_mt(rng: &mut Rng, tier: Tier, n: usize) -> Vec<String> {
             };
             let senders = rng.range(1, 6);
             let per = rng.range(50, 3000);
-            let mode = *rng.pick(&["send", "try", "mix", "send", "mix"]);
+            let mode = *rng.pick(&["send", "try", "mix", "send", "mix", "spin"]);
             format!("(mt {} {} {} {} {})", cap, senders, per, mode, rng.below(1_000_000))
         })
         .collect()
